@@ -23,7 +23,12 @@ ORACLES = [co.check_state_reports]
 
 def generate(seed, stratum, tier):
   rng = random.Random(seed)
-  return cc.gen_chart_scenario(rng)
+  sc = cc.gen_chart_scenario(rng)
+  if rng.random() < 0.25:
+    # start_at called again later on, in another state: "after start_at" holds for that start as well
+    names = [st['name'] for st in sc['spec']['states']]
+    sc['ops'].insert(rng.randrange(1, len(sc['ops']) + 1), ['restart', rng.choice(names)])
+  return sc
 
 
 shrink_candidates = cc.shrink_chart
